@@ -7,7 +7,7 @@ from decimal import Decimal
 import petl as etl
 from hypothesis import strategies as st
 
-from pv import gen, codec
+from pv import gen, codec, catgen
 from pv.core import Sub, Fail, exc_fail, two_iterators
 from pv.order import ref_cmp
 from pv.ref import base as R
@@ -58,6 +58,7 @@ def sel_case(draw, tier):
         cell = st.one_of(st.lists(st.sampled_from(p), max_size=3), st.sampled_from(["", "xay", "b"]), st.lists(st.sampled_from(p), max_size=2).map(tuple))
     tbl = draw(gen.table(hdr, [cell] * nf, max_rows=7 if tier == "quick" else 14, ragged=not contains and draw(st.booleans())))
     c = {"selector": sel, "table": tbl, "field": draw(st.one_of(st.sampled_from(hdr), st.integers(0, nf - 1))),
+         "form": draw(st.sampled_from(["lists", "lists", "lists"] + catgen.FORMS)),
          "complement": draw(st.booleans()), "value": draw(st.one_of(st.sampled_from(p), POOLV)),
          "value2": draw(st.one_of(st.sampled_from(p), POOLV))}
     if pair is not None and draw(st.booleans()):
@@ -93,7 +94,7 @@ def check_sel(case, ctx):
 
     def cellv(r):
         return R.cell(r, fi, missing)
-    T = codec.snapshot(tbl)
+    T = catgen.shape(codec.snapshot(tbl), case.get("form", "lists"))
     args, kw = (), {"complement": comp}
     if sel in ("selectlt", "selectle", "selectgt", "selectge"):
         sign = {"selectlt": lambda c: c < 0, "selectle": lambda c: c <= 0, "selectgt": lambda c: c > 0, "selectge": lambda c: c >= 0}[sel]
@@ -204,7 +205,7 @@ def check_part(case, ctx):
     kind, tbl, field = case["kind"], case["table"], case["field"]
     hdr = tuple(tbl[0])
     rows = [tuple(r) for r in tbl[1:]]
-    T = codec.snapshot(tbl)
+    T = catgen.shape(codec.snapshot(tbl), case.get("form", "lists"))
     fi = tbl[0].index(field)
     ctx.label("kind:" + kind)
     try:
